@@ -93,6 +93,11 @@ theorem data_step (w : W) (op : Op) : (step w op).1.data = applySet w.data (data
   | drop p => rfl
   | conn p => simp only [step, dataSet, applySet, connPeer]; split <;> rfl
   | reann p ctr ref ack => simp only [step, dataSet, applySet, processReann]; split <;> rfl
+  | full p keep ctr ack =>
+    simp only [step, dataSet, applySet, processFull]
+    split
+    · rfl
+    · split <;> rfl
   | setData a fn v =>
     simp only [step, dataSet, localSet]
     cases locF w a with
